@@ -204,7 +204,7 @@ def case_term(kind, schemes, cvs, dtype, vre, vim, conv, pts, mesh, variants, ou
 
 def interp_cases(rng, tier, variants):
     cs = C.CaseSet('interp', ['C15.Syntax', 'C15.Model', 'C15.Call', 'C15.Corr'], 'check', 'case')
-    n_cases = 700 if tier == 'quick' else 3500
+    n_cases = 700 if tier == 'quick' else 6000
     for it in range(n_cases):
         d = rng.choice([1, 1, 2, 2, 3])
         dtype = rng.choice(DTYPES)
@@ -421,7 +421,7 @@ exec(SAMPLE_SRC)
 
 def sampling_cases(rng, tier):
     cs = C.CaseSet('sampling', ['C15.Syntax', 'C15.Model', 'C15.Call', 'C15.Corr'], 'scheck', 'scase')
-    n_cases = 360 if tier == 'quick' else 1800
+    n_cases = 360 if tier == 'quick' else 2400
     for it in range(n_cases):
         d = rng.choice([1, 1, 2, 2, 3])
         dtype = rng.choice(['float64', 'float64', 'float32', 'complex128'])
@@ -519,7 +519,7 @@ def tensor_src(rng, comps, form):
 
 def tensor_sampling_cases(rng, tier):
     cs = C.CaseSet('sampling_tensor', ['C15.Syntax', 'C15.Model', 'C15.Call', 'C15.Corr'], 'scheck', 'scase')
-    n_cases = 60 if tier == 'quick' else 400
+    n_cases = 60 if tier == 'quick' else 500
     for it in range(n_cases):
         d = rng.choice([1, 2, 2, 3])
         sp, spsrc = make_space(rng, d, 'float64')
@@ -566,7 +566,7 @@ def resample_cases(rng, tier, variants):
     import odl
     cs = C.CaseSet('resample', ['C15.Syntax', 'C15.Model', 'C15.Call', 'C15.Corr'], 'rcheck', 'rcase')
     cs2 = C.CaseSet('deform', ['C15.Syntax', 'C15.Model', 'C15.Call', 'C15.Corr'], 'check', 'case')
-    n_cases = 120 if tier == 'quick' else 600
+    n_cases = 120 if tier == 'quick' else 800
     for it in range(n_cases):
         d = rng.choice([1, 1, 2, 2, 3])
         maxn = {1: 6, 2: 4, 3: 3}[d]
